@@ -132,7 +132,34 @@ def cluster_histories(src, n=2, faults=1, delays=0):
     src.reach('done')
 
 
+@rigged
+def job_timeouts(src, kind='start', k=4, target_index=0):
+    """H16e: the job scenario of C10 (timeouts, dropped events, silent target) with the traceback oracle only"""
+    from harness import c10
+    c10.job.__wrapped__(_OnlyInternalErrors(src), kind=kind, k=k, target_index=target_index)
+    src.reach('done')
+
+
+class _OnlyInternalErrors:
+    """passes everything to the source but keeps only the internal-error assertion of the reused scenario"""
+    def __init__(self, src):
+        self._src = src
+
+    def __getattr__(self, name):
+        return getattr(self._src, name)
+
+    def check(self, tag, cond, **ctx):
+        if tag == 'no-internal-error':
+            self._src.check('job-handled-without-internal-error', cond, sig=_site(ctx.get('log')), log=ctx.get('log'))
+
+
 HARNESSES = [
+    Harness('H16e-local', job_timeouts, quick={'kind': 'start', 'k': 4, 'target_index': 0},
+            thorough={'kind': 'start', 'k': 6, 'target_index': 0}, reach=('done',), timeout=(60, 600),
+            doc='start job on the local instance: timeouts and dropped events raise no internal error'),
+    Harness('H16e-stop', job_timeouts, quick={'kind': 'stop', 'k': 4, 'target_index': 1},
+            thorough={'kind': 'stop', 'k': 6, 'target_index': 1}, reach=('done',), timeout=(60, 600),
+            doc='stop job on a peer: same'),
     Harness('H16a', one_event, quick={'n': 2, 'fsm_states': ['SYNCHRONIZATION', 'ELECTION', 'DISTRIBUTION',
                                                              'OPERATION', 'CONCILIATION']},
             thorough={'n': 2}, reach=('done',), timeout=(200, 1800),
